@@ -148,6 +148,271 @@ class Tr:
         return out + f"  {ret}"
 
 
+
+class Flow(Tr):
+    """symbolic evaluation of a straight-line statement list (elementwise numpy / pandas arithmetic read as scalar arithmetic):
+    `x = e`, `self.x = e` (alias), `x op= e`, `if <leaf>: … else: …` assigning the same names, `e.round(decimals=0)`;
+    a statement whose right-hand side is outside the subset *poisons* its targets (using one later is a TranslateError)."""
+
+    def expr(self, n):
+        if (isinstance(n, ast.Call) and isinstance(n.func, ast.Attribute) and n.func.attr == "round" and not n.args
+                and [(k.arg, ast.unparse(k.value)) for k in n.keywords] == [("decimals", "0")]):
+            return f"((ElexModel.rhe {self.expr(n.func.value)} : Int) : Rat)"
+        text = ast.unparse(n)
+        if text in self.env and self.env[text] is None:
+            raise TranslateError(f"{text} depends on an untranslated statement")
+        return super().expr(n)
+
+    def _targets(self, st):
+        if isinstance(st, ast.Assign):
+            return [ast.unparse(t) for t in st.targets]
+        if isinstance(st, ast.AugAssign):
+            return [ast.unparse(st.target)]
+        return []
+
+    def run(self, stmts):
+        for st in stmts:
+            if isinstance(st, ast.Expr):
+                continue
+            if isinstance(st, ast.Return):
+                self.ret = st.value
+                return
+            if isinstance(st, ast.If):
+                test = self.expr(st.test)
+                if test in ("true", "false"):
+                    self.run(st.body if test == "true" else st.orelse)
+                    if getattr(self, "ret", None) is not None:
+                        return
+                    continue
+                a, b = type(self)(self.src, self.env, self.calls), type(self)(self.src, self.env, self.calls)
+                a.run(st.body)
+                b.run(st.orelse)
+                for k in set(a.env) | set(b.env):
+                    va, vb = a.env.get(k, self.env.get(k)), b.env.get(k, self.env.get(k))
+                    if va == vb:
+                        self.env[k] = va
+                    elif va is None or vb is None:
+                        self.env[k] = None
+                    else:
+                        self.env[k] = f"(if {test} then {va} else {vb})"
+                continue
+            if (isinstance(st, ast.Assign) and len(st.targets) == 1 and isinstance(st.targets[0], ast.Subscript)
+                    and isinstance(st.targets[0].value, ast.Name) and self.env.get(st.targets[0].value.id) is not None
+                    and isinstance(st.value, ast.Constant)):
+                # masked assignment  x[mask] = const   ->   if mask then const else x
+                name = st.targets[0].value.id
+                try:
+                    self.env[name] = f"(if {self.expr(st.targets[0].slice)} then {self.expr(st.value)} else {self.env[name]})"
+                except TranslateError:
+                    self.env[name] = None
+                continue
+            if isinstance(st, ast.Assign):
+                try:
+                    v = self.expr(st.value)
+                except TranslateError:
+                    v = None
+                for t in self._targets(st):
+                    self.env[t] = v
+                continue
+            if isinstance(st, ast.AugAssign):
+                op = {ast.Add: "+", ast.Sub: "-", ast.Mult: "*", ast.Div: "/"}.get(type(st.op))
+                t = ast.unparse(st.target)
+                try:
+                    if op is None:
+                        raise TranslateError("augmented operator")
+                    self.env[t] = f"({self.expr(st.target)} {op} {self.expr(st.value)})"
+                except TranslateError:
+                    self.env[t] = None
+                continue
+            # anything else (loops, with, try …): poison every name it assigns
+            for sub in ast.walk(st):
+                for t in self._targets(sub):
+                    self.env[t] = None
+        self.ret = getattr(self, "ret", None)
+
+    def value(self, node):
+        return self.expr(node)
+
+
+def _is_bool(term):
+    return term in ("true", "false") or term.startswith("(decide ") or term.startswith("(!") or term.startswith("(B:")
+
+
+class NFlow(Flow):
+    """Flow + numpy boolean idioms: `~m`, `a & b`, `m.astype(int)` (bool -> 0/1), `x.astype(bool)`, `.flatten()`, a boolean
+    compared with 0.5, booleans used in arithmetic.  Boolean leaves are written `(B: name)` in the environment and printed as `name`."""
+
+    def expr(self, n):
+        t = self._e(n)
+        return t
+
+    def _num(self, term):
+        return f"(ElexModel.boolToRat {self._strip(term)})" if _is_bool(term) else term
+
+    @staticmethod
+    def _strip(term):
+        return term[3:-1].strip() if term.startswith("(B:") else term
+
+    def _e(self, n):
+        text = ast.unparse(n)
+        if text in self.env:
+            if self.env[text] is None:
+                raise TranslateError(f"{text} depends on an untranslated statement")
+            return self.env[text]
+        if isinstance(n, ast.Call) and isinstance(n.func, ast.Attribute) and not n.keywords:
+            a = n.func.attr
+            if a == "flatten" and not n.args:
+                return self._e(n.func.value)
+            if a == "astype" and len(n.args) == 1:
+                inner = self._e(n.func.value)
+                ty = ast.unparse(n.args[0])
+                if ty == "int":
+                    if not _is_bool(inner):
+                        raise TranslateError("astype(int) of a non-boolean")
+                    return self._num(inner)
+                if ty == "bool":
+                    return inner if _is_bool(inner) else f"(decide ({inner} ≠ 0))"
+        if isinstance(n, ast.UnaryOp) and isinstance(n.op, ast.Invert):
+            inner = self._e(n.operand)
+            if not _is_bool(inner):
+                raise TranslateError("~ of a non-boolean")
+            return f"(!{self._strip(inner)})"
+        if isinstance(n, ast.BinOp) and isinstance(n.op, (ast.BitAnd, ast.BitOr)):
+            l, r = self._e(n.left), self._e(n.right)
+            if not (_is_bool(l) and _is_bool(r)):
+                raise TranslateError("& / | of non-booleans")
+            return f"(B: ({self._strip(l)} {'&&' if isinstance(n.op, ast.BitAnd) else '||'} {self._strip(r)}))"
+        if isinstance(n, ast.BinOp):
+            op = {ast.Add: "+", ast.Sub: "-", ast.Mult: "*", ast.Div: "/"}.get(type(n.op))
+            if op is None:
+                raise TranslateError(f"operator {type(n.op).__name__}")
+            return f"({self._num(self._e(n.left))} {op} {self._num(self._e(n.right))})"
+        if isinstance(n, ast.Compare) and len(n.ops) == 1:
+            l = self._e(n.left)
+            if _is_bool(l) and isinstance(n.ops[0], ast.Gt) and ast.unparse(n.comparators[0]) == "0.5":
+                return l  # a boolean (0/1) exceeds one half iff it is true
+            r = self._e(n.comparators[0])
+            sym = {ast.Lt: "<", ast.LtE: "≤", ast.Gt: ">", ast.GtE: "≥", ast.Eq: "=", ast.NotEq: "≠"}.get(type(n.ops[0]))
+            if sym is None:
+                raise TranslateError("comparison")
+            return f"(decide ({self._num(l)} {sym} {self._num(r)}))"
+        if isinstance(n, ast.Call) and ast.unparse(n.func) in ("np.maximum", "np.minimum", "max", "min") and len(n.args) == 2:
+            f = "ElexModel.rmax" if "max" in ast.unparse(n.func) else "ElexModel.rmin"
+            return f"({f} {self._num(self._e(n.args[0]))} {self._num(self._e(n.args[1]))})"
+        return Flow.expr(self, n)
+
+    def final(self, term):
+        """print: boolean leaves without their marker"""
+        return term.replace("(B: ", "(")
+
+
+def _call_args(fn, func_text):
+    for n in ast.walk(fn):
+        if isinstance(n, ast.Call) and ast.unparse(n.func) == func_text:
+            return [ast.unparse(a) for a in n.args] + [f"{k.arg}={ast.unparse(k.value)}" for k in n.keywords]
+    raise TranslateError(f"call {func_text} not found in {fn.name}")
+
+
+def _strlist(name, items):
+    return f"def {name} : List String := [" + ", ".join('"' + i.replace('"', "'") + '"' for i in items) + "]\n"
+
+
+W = "nonreporting_units[f'last_election_results_{estimand}']"
+PART = "nonreporting_units[f'results_{estimand}']"
+
+
+def _unit_pred_def():
+    """ConformalElectionModel.get_unit_predictions: un-normalise, floor at the counted votes, round"""
+    src, tree = _parse("models/ConformalElectionModel.py")
+    fn = _find(tree, "ConformalElectionModel", "get_unit_predictions")
+    fl = Flow(src, {"qr.predict(nonreporting_units_features.values).flatten()": "p", W: "w", PART: "part"})
+    fl.run(fn.body)
+    if fl.ret is None or not isinstance(fl.ret, ast.Tuple):
+        raise TranslateError("get_unit_predictions: return")
+    return lean_def("unit_pred", [("p", "Rat"), ("w", "Rat"), ("part", "Rat")], "Rat", "  " + fl.value(fl.ret.elts[0]))
+
+
+def _np_interval_defs():
+    """NonparametricElectionModel.get_unit_prediction_intervals as a dataflow"""
+    src, tree = _parse("models/NonparametricElectionModel.py")
+    fn = _find(tree, "NonparametricElectionModel", "get_unit_prediction_intervals")
+    env = {"prediction_intervals.lower": "l", "prediction_intervals.upper": "u", W: "w", PART: "part", "self.robust": "robust",
+           "alpha": "alpha", "prediction_intervals.conformalization.shape[0]": "ncal",
+           "prediction_intervals.conformalization.lower_bounds": "lb", "prediction_intervals.conformalization.upper_bounds": "ub"}
+    calls_as_leaves = {"np.quantile": "npq", "self._compute_population_correction": "pc"}
+
+    class F(Flow):
+        def expr(self, n):
+            if isinstance(n, ast.Call) and ast.unparse(n.func) in calls_as_leaves:
+                return calls_as_leaves[ast.unparse(n.func)]
+            return super().expr(n)
+
+    fl = F(src, env)
+    fl.run(fn.body)
+    if fl.ret is None or not isinstance(fl.ret, ast.Call) or ast.unparse(fl.ret.func) != "PredictionIntervals" or len(fl.ret.args) != 3:
+        raise TranslateError("get_unit_prediction_intervals: return PredictionIntervals(lower, upper, conformalization)")
+    params = [("l", "Rat"), ("u", "Rat"), ("w", "Rat"), ("part", "Rat"), ("robust", "Bool"), ("npq", "Rat"), ("pc", "Rat")]
+    out = [lean_def("final_lower", params, "Rat", "  " + fl.value(fl.ret.args[0])),
+           lean_def("final_upper", params, "Rat", "  " + fl.value(fl.ret.args[1])),
+           lean_def("applied_correction", [("robust", "Bool"), ("npq", "Rat"), ("pc", "Rat")], "Rat", "  " + fl.env["correction"]),
+           lean_def("score", [("lb", "Rat"), ("ub", "Rat")], "Rat", "  " + fl.env["scores"]),
+           _strlist("conformalization_returned", [ast.unparse(fl.ret.args[2])]),
+           _strlist("quantile_args", _call_args(fn, "np.quantile")),
+           _strlist("population_correction_args", _call_args(fn, "self._compute_population_correction"))]
+    return out
+
+
+def gen_C03():
+    return [_unit_pred_def()] + _np_interval_defs()[:2]
+
+
+def gen_C05():
+    """the median solve of get_unit_predictions: what is passed to fit_model, and the closing formula"""
+    src, tree = _parse("models/ConformalElectionModel.py")
+    fn = _find(tree, "ConformalElectionModel", "get_unit_predictions")
+    args = None
+    for n in ast.walk(fn):
+        if isinstance(n, ast.Call) and ast.unparse(n.func) == "self.fit_model":
+            args = [ast.unparse(a) for a in n.args]
+    if args is None:
+        raise TranslateError("get_unit_predictions: self.fit_model call")
+    defs = {}
+    for n in ast.walk(fn):
+        if isinstance(n, ast.Assign) and len(n.targets) == 1 and ast.unparse(n.targets[0]) in ("weights", "reporting_units_residuals"):
+            defs[ast.unparse(n.targets[0])] = ast.unparse(n.value)
+    return [_unit_pred_def(), _strlist("median_fit_args", args),
+            _strlist("median_fit_weights", [defs.get("weights", "?")]), _strlist("median_fit_target", [defs.get("reporting_units_residuals", "?")])]
+
+
+def gen_C04():
+    out = _np_interval_defs()
+    # conformity bounds of the calibration units
+    src, tree = _parse("models/ConformalElectionModel.py")
+    fn = _find(tree, "ConformalElectionModel", "get_unit_prediction_interval_bounds")
+    tr = Tr(src, {"lower_qr.predict(conformalization_data_features.values).flatten()": "fit",
+                  "upper_qr.predict(conformalization_data_features.values).flatten()": "fit",
+                  "conformalization_data[f'residuals_{estimand}'].values": "r"})
+    out.append(lean_def("conf_lower_bound", [("fit", "Rat"), ("r", "Rat")], "Rat",
+                        "  " + tr.expr(assigned_expr(fn, "conformalization_lower_bounds"))))
+    out.append(lean_def("conf_upper_bound", [("fit", "Rat"), ("r", "Rat")], "Rat",
+                        "  " + tr.expr(assigned_expr(fn, "conformalization_upper_bounds"))))
+    out.append(_strlist("conf_columns", [ast.unparse(n.targets[0]) + " = " + ast.unparse(n.value) for n in ast.walk(fn)
+                                         if isinstance(n, ast.Assign) and ast.unparse(n.targets[0]).startswith("conformalization_data[")]))
+    # shape of _compute_population_correction: normalised weights, sort key, cumulative sum, strict query, reduction
+    src, tree = _parse("models/NonparametricElectionModel.py")
+    fn = _find(tree, "NonparametricElectionModel", "_compute_population_correction")
+    shape = []
+    for n in ast.walk(fn):
+        if isinstance(n, ast.Call):
+            f = ast.unparse(n.func)
+            if f.endswith(".sort_values") or f.endswith(".query") or f in ("np.min", "np.max", "min", "max") or f.endswith(".cumsum"):
+                shape.append(f.split(".")[-1] + "(" + ", ".join([ast.unparse(a) for a in n.args] + [f"{k.arg}={ast.unparse(k.value)}" for k in n.keywords]) + ")")
+    w = assigned_expr(fn, "weights")
+    shape.append("weights = " + ast.unparse(w))
+    out.append(_strlist("population_correction_shape", sorted(shape)))
+    return out
+
+
 def assigned_expr(fn, target_text):
     """the right-hand side of the first assignment (anywhere in fn) whose target unparses to target_text"""
     for node in ast.walk(fn):
@@ -448,7 +713,171 @@ def gen_C12():
     return out
 
 
-GENERATORS = {"C06": gen_C06, "C07": gen_C07, "C10": gen_C10, "C12": gen_C12, "C14": gen_C14, "C18": gen_C18, "C20": gen_C20}
+def gen_C08():
+    """get_national_summary_estimates in the default mode (hard threshold, perfect correlation), per contest"""
+    src, tree = _parse("models/BootstrapElectionModel.py")
+    fn = _find(tree, "BootstrapElectionModel", "get_national_summary_estimates")
+    env = {"self.hard_threshold": "true", "self.national_summary_correlation": "true", "self.called_contests is not None": "true",
+           "self.stop_model_call is not None": "true", "nat_sum_data_dict is None": "false",
+           "len(nat_sum_data_dict) != self.divided_error_B_1.shape[0]": "false",
+           "self.aggregate_pred_margin": "pred", "lower_q": "lq", "base_to_add": "base",
+           "np.mean(agg_pred_margin_dist > 0, axis=1)": "fracPos", "np.mean(agg_pred_margin_dist < 0, axis=1)": "fracNeg",
+           "np.isclose(self.called_contests.flatten(), -1)": "(B: uncalled)", "self.stop_model_call.flatten()": "(B: stop)",
+           "np.sum(nat_sum_data_dict_sorted_vals * aggregate_dem_probs_total)": "vp",
+           "np.sum(nat_sum_data_dict_sorted_vals.flatten() * potential_losses)": "sumLoss",
+           "np.sum(nat_sum_data_dict_sorted_vals.flatten() * potential_gains)": "sumGain",
+           "nat_sum_data_dict_sorted_vals": "w"}
+    fl = NFlow(src, env)
+    fl.run(fn.body)
+    need = ["pred_states", "potential_losses", "potential_gains", "agg_pred", "agg_lower", "agg_upper"]
+    for k in need:
+        if fl.env.get(k) is None:
+            raise TranslateError(f"get_national_summary_estimates: {k}")
+    cp = [("pred", "Rat"), ("fracPos", "Rat"), ("fracNeg", "Rat"), ("lq", "Rat"), ("uncalled", "Bool"), ("stop", "Bool")]
+    out = [lean_def("pred_state", [("pred", "Rat")], "Rat", "  " + fl.final(fl.env["pred_states"])),
+           lean_def("potential_loss", cp, "Rat", "  " + fl.final(fl.env["potential_losses"])),
+           lean_def("potential_gain", cp, "Rat", "  " + fl.final(fl.env["potential_gains"])),
+           lean_def("agg_pred", [("vp", "Rat"), ("base", "Rat")], "Rat", "  " + fl.final(fl.env["agg_pred"])),
+           lean_def("agg_lower", [("vp", "Rat"), ("sumLoss", "Rat"), ("base", "Rat")], "Rat", "  " + fl.final(fl.env["agg_lower"])),
+           lean_def("agg_upper", [("vp", "Rat"), ("sumGain", "Rat"), ("base", "Rat")], "Rat", "  " + fl.final(fl.env["agg_upper"]))]
+    tr = Tr(src, {"self.aggregate_pred_margin": "pred", "self.divided_error_B_1": "d1", "self.divided_error_B_2": "d2"})
+    out.append(lean_def("pred_margin_draw", [("pred", "Rat"), ("d1", "Rat"), ("d2", "Rat")], "Rat",
+                        "  " + tr.expr(assigned_expr(fn, "agg_pred_margin_dist"))))
+    if fl.ret is None:
+        raise TranslateError("get_national_summary_estimates: return")
+    out.append(_strlist("returned", [ast.unparse(assigned_expr(fn, "national_summary_estimates"))]))
+    out.append(_strlist("weights_matching", [ast.unparse(assigned_expr(fn, "nat_sum_data_dict_sorted")),
+                                             ast.unparse(assigned_expr(fn, "nat_sum_data_dict_sorted_vals"))]))
+    size_tests = [ast.unparse(n.test) for n in fn.body if isinstance(n, ast.If) and any(isinstance(s, ast.Raise) for s in n.body)]
+    out.append(_strlist("size_check", size_tests))
+    # what the summary reads from the model object, and where those attributes are written
+    reads = sorted({ast.unparse(n) for n in ast.walk(fn) if isinstance(n, ast.Attribute) and isinstance(n.value, ast.Name)
+                    and n.value.id == "self" and not isinstance(n.ctx, ast.Store)} - {"self._get_quantiles"})
+    out.append(_strlist("state_read", reads))
+    return out
+
+
+def _mask_of(fn, target, nth=0):
+    """the boolean mask `frame[mask]` on the right-hand side of the nth assignment to `target` (looking through .reset_index / .copy)"""
+    k = 0
+    for n in ast.walk(fn):
+        if isinstance(n, ast.Assign) and len(n.targets) == 1 and ast.unparse(n.targets[0]) == target:
+            v = n.value
+            while isinstance(v, ast.Call) and isinstance(v.func, ast.Attribute) and v.func.attr in ("reset_index", "copy"):
+                v = v.func.value
+            if isinstance(v, ast.Subscript):
+                if k == nth:
+                    return v.slice
+                k += 1
+    raise TranslateError(f"{fn.name}: mask of {target} #{nth}")
+
+
+def _units_defs():
+    src, tree = _parse("handlers/data/CombinedData.py")
+    gu = _find(tree, "CombinedDataHandler", "get_units")
+    nm = _find(tree, "CombinedDataHandler", "_get_non_modeled_units")
+    out = []
+    fl = NFlow(src, {"self.data.percent_expected_vote": "pev", "percent_reporting_threshold": "thr"})
+    out.append(lean_def("is_reporting", [("pev", "Rat"), ("thr", "Rat")], "Bool", "  " + fl.final(fl.expr(_mask_of(gu, "reporting_units")))))
+    out.append(lean_def("is_nonreporting", [("pev", "Rat"), ("thr", "Rat")], "Bool", "  " + fl.final(fl.expr(_mask_of(gu, "nonreporting_units")))))
+    fl = NFlow(src, {"reporting_units.turnout_factor": "tf", "turnout_factor_lower": "lo", "turnout_factor_upper": "hi"})
+    out.append(lean_def("strange_turnout_factor", [("tf", "Rat"), ("lo", "Rat"), ("hi", "Rat")], "Bool",
+                        "  " + fl.final(fl.expr(_mask_of(nm, "units_with_strange_turnout_factor")))))
+    fl = NFlow(src, {"self.data['geographic_unit_fips'].isin(unit_blocklist)": "(B: inUnitList)",
+                     "self.data['postal_code'].isin(postal_code_blocklist)": "(B: inStateList)"})
+    out.append(lean_def("blocklisted", [("inUnitList", "Bool"), ("inStateList", "Bool")], "Bool",
+                        "  " + fl.final(fl.expr(_mask_of(nm, "units_blocklisted")))))
+    tr = Tr(src, {"reporting_units[f'results_{estimand}']": "res", "reporting_units[f'last_election_results_{estimand}']": "last"})
+    out.append(lean_def("residual", [("res", "Rat"), ("last", "Rat")], "Rat", "  " + tr.expr(assigned_expr(gu, "reporting_units[f'residuals_{estimand}']"))))
+    # concatenation order of the non-modelled frames (drop_duplicates keeps the first) and their categories
+    order = [e.id for e in assigned_expr(nm, "non_modeled_units_list").elts]
+    cats = []
+    for n in ast.walk(nm):
+        if isinstance(n, ast.Call) and ast.unparse(n.func) == "non_modeled_units_list.append":
+            order.append(ast.unparse(n.args[0]))
+    for fn in (nm, gu, _find(tree, "CombinedDataHandler", "_get_unexpected_units")):
+        for n in ast.walk(fn):
+            if isinstance(n, ast.Assign) and ast.unparse(n.targets[0]).endswith("['unit_category']") and isinstance(n.value, ast.Constant):
+                cats.append(ast.unparse(n.targets[0]).split("[")[0] + " -> " + n.value.value)
+    out.append(_strlist("non_modeled_order", order))
+    out.append(_strlist("categories", cats))
+    out.append(_strlist("non_modeled_combined", [ast.unparse(assigned_expr(nm, "non_modeled_units"))]))
+    out.append(_strlist("zero_baseline", [ast.unparse(_find(tree, "CombinedDataHandler", "_get_units_with_baseline_of_zero").body[-1].value),
+                                          ast.unparse(assigned_expr(nm, "units_with_zero_baseline"))]))
+    gates = [ast.unparse(n.test) for n in ast.walk(nm) if isinstance(n, ast.If)]
+    out.append(_strlist("outlier_gates", gates))
+    out.append(_strlist("outlier_input", [ast.unparse(assigned_expr(nm, "reporting_units"))]))
+    seq = [ast.unparse(n.targets[0]) + " = " + ast.unparse(n.value) for n in gu.body
+           if isinstance(n, ast.Assign) and ast.unparse(n.targets[0]) in ("reporting_units", "nonreporting_units", "unexpected_units", "all_unexpected_units")]
+    out.append(_strlist("get_units_sequence", seq))
+    out.append(_strlist("get_units_returned", [ast.unparse(gu.body[-1].value)]))
+    ue = _find(tree, "CombinedDataHandler", "_get_unexpected_units")
+    out.append(_strlist("unexpected_units", [ast.unparse(assigned_expr(ue, "unexpected_units")), ast.unparse(assigned_expr(ue, "expected_geographic_units"))]))
+    init = _find(tree, "CombinedDataHandler", "__init__")
+    out.append(_strlist("merge", [ast.unparse(assigned_expr(init, "data"))]))
+    pol = []
+    for n in ast.walk(init):
+        if isinstance(n, ast.If) and "handle_unreporting" in ast.unparse(n.test):
+            pol.append(ast.unparse(n.test) + " : " + " ; ".join(ast.unparse(s) for s in n.body))
+    out.append(_strlist("unreporting_policy", pol))
+    return out
+
+
+def gen_C09():
+    return _units_defs()
+
+
+def gen_C17():
+    """scalar formulas and tests of VersionedDataHandler.compute_versioned_margin_estimate (inner compute_estimated_margin)"""
+    src, tree = _parse("handlers/data/VersionedData.py")
+    outer = _find(tree, "VersionedDataHandler", "compute_versioned_margin_estimate")
+    fn = next((n for n in ast.walk(outer) if isinstance(n, ast.FunctionDef) and n.name == "compute_estimated_margin"), None)
+    if fn is None:
+        raise TranslateError("compute_estimated_margin")
+    out = []
+    tr = Tr(src, {"np.diff(results_dem, append=results_dem[-1])": "dd", "np.diff(results_gop, append=results_gop[-1])": "dg",
+                  "np.diff(results_weights, append=results_weights[-1])": "dw"})
+    out.append(lean_def("batch_margin", [("dd", "Rat"), ("dg", "Rat"), ("dw", "Rat")], "Rat", "  " + tr.expr(assigned_expr(fn, "batch_margin"))))
+    tr = Tr(src, {"perc_expected_vote_corr": "corr", "percent_expected_vote[-1]": "pevLast"})
+    out.append(lean_def("rescaled_percent", [("corr", "Rat"), ("pevLast", "Rat")], "Rat",
+                        "  " + tr.expr(assigned_expr(fn, "df['percent_expected_vote']"))))
+    env = {"obs_indices": "oi", "percent_vote[clipped_indices]": "pv", "norm_margin[0]": "nm0", "norm_margin[clipped_indices]": "nmc",
+           "batch_margin[clipped_indices]": "bc"}
+    tr = Tr(src, env)
+    for name, params in (("observed_vote", ["oi", "pv"]), ("observed_norm_margin", ["oi", "nm0", "nmc"]),
+                         ("observed_batch_margin", ["oi", "nm0", "bc"])):
+        out.append(lean_def(name, [(q, "Rat") for q in params], "Rat", "  " + tr.expr(assigned_expr(fn, name))))
+    tr = Tr(src, {"observed_norm_margin": "onm", "observed_vote": "ov", "observed_batch_margin": "obm", "percs": "perc"})
+    out.append(lean_def("est_numerator", [("onm", "Rat"), ("ov", "Rat"), ("obm", "Rat"), ("perc", "Rat")], "Rat",
+                        "  " + tr.expr(assigned_expr(fn, "est_margins"))))
+    # the returned frames: error kinds in order, and the columns of the normal frame
+    kinds, normal = [], None
+    for n in ast.walk(fn):
+        if isinstance(n, ast.Return) and isinstance(n.value, ast.Call) and n.value.args and isinstance(n.value.args[0], ast.Dict):
+            d = {ast.literal_eval(k): v for k, v in zip(n.value.args[0].keys, n.value.args[0].values)}
+            et = ast.literal_eval(d["error_type"])
+            kinds.append((n.lineno, et))
+            if et == "none":
+                normal = d
+    if normal is None:
+        raise TranslateError("normal frame")
+    tr = Tr(src, {"norm_margin[-1]": "nmLast", "est_margins": "e"})
+    out.append(lean_def("est_correction", [("nmLast", "Rat"), ("e", "Rat")], "Rat", "  " + tr.expr(normal["est_correction"])))
+    out.append(_strlist("error_kinds", [k for _, k in sorted(kinds)]))
+    out.append(_strlist("nearest_observed", [ast.unparse(normal["nearest_observed_vote"])]))
+    tests = [ast.unparse(n.test) for n in ast.walk(fn) if isinstance(n, ast.If)]
+    out.append(_strlist("tests", tests))
+    shape = []
+    for n in ast.walk(fn):
+        if isinstance(n, ast.Call) and ast.unparse(n.func) in ("np.searchsorted", "np.clip", "np.arange", "np.divide"):
+            shape.append(ast.unparse(n).replace("\n", " "))
+        if isinstance(n, ast.Assign) and ast.unparse(n.targets[0]) in ("max_perc", "batch_margin[np.isnan(batch_margin)]", "obs_indices"):
+            shape.append(ast.unparse(n))
+    out.append(_strlist("shape", sorted(set(shape))))
+    return out
+
+
+GENERATORS = {"C03": gen_C03, "C08": gen_C08, "C09": gen_C09, "C04": gen_C04, "C05": gen_C05, "C06": gen_C06, "C07": gen_C07, "C10": gen_C10, "C12": gen_C12, "C14": gen_C14, "C17": gen_C17, "C18": gen_C18, "C20": gen_C20}
 
 HEADER = """import ElexModel.Core.Num
 /-! GENERATED by harness/extract.py from /repo/src on every check run. Do not edit. -/
